@@ -125,7 +125,9 @@ Definition c19_sections_run (active0 : bool) (outs : list (list c19_outcome)) : 
 (** * Part 2: futures *)
 
 Inductive c19_fop := C19_Valid | C19_Ready | C19_Wait | C19_Get
-                   | C19_Move.   (* F g(std::move(f)): afterwards the script talks to g; observation = f.valid() *)
+                   | C19_Move        (* F g(std::move(f)): afterwards the script talks to g; observation = f.valid() *)
+                   | C19_MoveAssign  (* F d; d = std::move(f): operator=(F&&) SWAPS, so f gets d's (invalid, null) state; observation = f.valid() *)
+                   | C19_SendData.   (* get_send_data(): wait(); return send_data_.get();  (called at most once per history) *)
 Inductive c19_fev := C19_EvOp (o : c19_fop) | C19_EvComplete.   (* EvComplete: the network finished the operation *)
 
 (* impl::Buffer<T> (owned value), Buffer<T&> (reference), Buffer<void> *)
@@ -146,6 +148,7 @@ Section Future.
   | C19_RBool (b : bool)
   | C19_RUnit
   | C19_RData (d : D)
+  | C19_RSent              (* the send buffer came back (its content is compared by the driver) *)
   | C19_RInvalid.          (* InvalidFutureException *)
 
   (* trace items: results of the calls, and the point at which the operation completed *)
@@ -196,6 +199,11 @@ Section Future.
               [C19_TOp o (match c19_buf f' with Some d => C19_RData d | None => C19_RInvalid end)],
               C19_mkfut (c19_buf_after_get cfg k (c19_buf f')) C19_ReqNull)
         else ([C19_TOp o C19_RInvalid], f)
+    | C19_MoveAssign => ([C19_TOp o (C19_RBool false)], f)
+    | C19_SendData =>
+        if c19_fvalid f
+        then ((if c19_pending f then [C19_TEnable] else []) ++ [C19_TOp o C19_RSent], c19_mpi_wait v f)
+        else ([C19_TOp o C19_RInvalid], f)
     | C19_Move =>
         (* MPIFuture(MPIFuture&& f): data_(std::move(f.data_)), req_ swapped with MPI_REQUEST_NULL.
            The script continues with the new object (same buffer, same request); the observation is old.valid() *)
@@ -214,6 +222,8 @@ Section Future.
      a default-constructed one: no buffer, null request *)
   Definition c19_fut_started (init : D) : c19_fut := C19_mkfut (Some init) (C19_ReqActive false).
   Definition c19_fut_default : c19_fut := C19_mkfut None C19_ReqNull.
+  (* MPIFuture<T>(true): valid, value-initialised buffer, no request *)
+  Definition c19_fut_prevalid (v : D) : c19_fut := C19_mkfut (Some v) C19_ReqNull.
 
   (* PseudoFuture<T>: { bool valid_; T data_ } *)
   Record c19_pfut := C19_mkpfut { c19_pvalid : bool; c19_pdata : D }.
@@ -225,6 +235,8 @@ Section Future.
     | C19_Get => if c19_pvalid f then (C19_TOp o (C19_RData (c19_pdata f)), C19_mkpfut false (c19_pdata f))
                  else (C19_TOp o C19_RInvalid, f)
     | C19_Move => (* implicit move constructor: copies valid_ *) (C19_TOp o (C19_RBool (c19_pvalid f)), f)
+    | C19_MoveAssign => (* implicit move assignment: copies valid_ too *) (C19_TOp o (C19_RBool (c19_pvalid f)), f)
+    | C19_SendData => (* PseudoFuture has no send buffer *) (C19_TOp o C19_RInvalid, f)
     end.
   Fixpoint c19_ptrace (ops : list c19_fop) (f : c19_pfut) : list c19_titem :=
     match ops with
@@ -233,12 +245,12 @@ Section Future.
     end.
 End Future.
 
-Arguments C19_RBool {D}. Arguments C19_RUnit {D}. Arguments C19_RData {D}. Arguments C19_RInvalid {D}.
+Arguments C19_RBool {D}. Arguments C19_RUnit {D}. Arguments C19_RSent {D}. Arguments C19_RData {D}. Arguments C19_RInvalid {D}.
 Arguments C19_TOp {D}. Arguments C19_TEnable {D}.
 Arguments C19_mkfut {D}. Arguments c19_buf {D}. Arguments c19_rq {D}. Arguments c19_fvalid {D}.
 Arguments c19_complete {D}. Arguments c19_pending {D}. Arguments c19_mpi_wait {D}. Arguments c19_mpi_test {D}.
 Arguments c19_buf_after_get {D}. Arguments c19_buf_after_move {D}. Arguments c19_fstep {D}. Arguments c19_ftrace {D}.
-Arguments c19_fut_started {D}. Arguments c19_fut_default {D}.
+Arguments c19_fut_started {D}. Arguments c19_fut_default {D}. Arguments c19_fut_prevalid {D}.
 Arguments C19_mkpfut {D}. Arguments c19_pvalid {D}. Arguments c19_pdata {D}. Arguments c19_pstep {D}. Arguments c19_ptrace {D}.
 
 (* histories: the operations with the completion event inserted before operation number c (c >= length: never observed) *)
